@@ -345,7 +345,12 @@ def make_case(seed, i, force_end=None):
             ur.shuffle(first)
             edits += first
             lp = "/w/lib_later/" + ur.choice(["a_first.yml", "a_first.yml", "c_more.yml"])
-            edits.append({"kind": "write" if ur.chance(0.5) else "atomic", "path": lp, "data": cur[lp] + "\nLaterExtra: !record\n  fields:\n    v: int\n", "steps": 1})
+            last = {"kind": "write" if ur.chance(0.5) else "atomic", "path": lp, "data": cur[lp] + "\nLaterExtra: !record\n  fields:\n    v: int\n", "steps": 1}
+            if ur.chance(0.7):
+                # fault placement inside the operation: the save lands right after the tool has read that very file (or a
+                # later one of the directory) - in the generation that reads the directory before anything watches it
+                last["when_read"] = ur.choice([lp, lp, "/w/lib_later/c_more.yml"])
+            edits.append(last)
             log.append("import ../lib_later and use LibLater.LaterExtra (in %s), which is then added in %s" % (q, lp))
     # schedule / fault swarm
     sched = {
